@@ -17,14 +17,14 @@ def uf(m, name, args, f):
     return T.Fn("uf:" + name, *[m.lift(a) for a in args])
 
 
-def job(max_iter, strat, tier):
+def job(max_iter, strat, tier, part=0, nparts=1):
     T.reset_terms()
     res = check.Result()
     hs = check.Harness("minimize_sym", TU, native=False)
     hn = check.Harness("minimize_nat", TU, extra=("-DVOPT_NATIVE_UF",))
     key = "minimize/scalar-residual/max_iter%d/%s" % (max_iter, "disney" if strat else "ceres")
     # differential validation on a concrete residual family
-    for k in range(4):
+    for k in range(4 if part == 0 else 0):
         inp = [random.Random(k).uniform(-3, 3), float(max_iter + 3), float(strat), 1e-6, 1e-6]
         a = hn.native("opt_minimize0", inp, 16)
         b, _ = hn.concrete("opt_minimize0", inp, 16)
@@ -40,8 +40,13 @@ def job(max_iter, strat, tier):
         res.notes.append(key + ": path budget exhausted; unexplored paths are outside the claim")
         res.bounds.add(key + ": at most %d paths" % ex.max_paths)
     nok = 0
+    if part != 0:
+        res.paths, res.steps = 0, 0     # the exploration is repeated in every part; count it once
     for pi, p in enumerate(paths):
         pk = "%s/path%d" % (key, pi)
+        if pi % nparts != part:
+            nok += 1 if p.status == "ok" else 0
+            continue
         if p.status != "ok":
             res.add_raw(pk, "undecided", "%s: %s" % (p.status, p.reason))
             continue
@@ -165,9 +170,10 @@ def replay_battery(hn, max_iter, strat):
 def main(tier):
     run = check.Run(PID, tier)
     check.run_jobs([(_compile, ())])
-    jobs = [(job, (1, 0, tier)), (job, (1, 1, tier)), (job, (0, 0, tier))]
+    NP = 5   # the obligations of one (max_iter, strategy) configuration are decided in NP parallel parts (paths pi % NP == part)
+    jobs = [(job, (1, s_, tier, i, NP)) for s_ in (0, 1) for i in range(NP)] + [(job, (0, 0, tier))]
     if tier == "thorough":
-        jobs += [(job, (2, 0, tier)), (job, (2, 1, tier))]
+        jobs += [(job, (2, s_, tier, i, NP)) for s_ in (0, 1) for i in range(NP)]
     run.extend(check.run_jobs(jobs, timeout=1500 if tier == "quick" else 3000))
     run.bounds += ["scalar residual R -> R^1 with uninterpreted F and J, one unknown; max_iter in {0,1} quick, {0,1,2} thorough; both trust-region strategies; ftol = ptol = 1e-6"]
     run.assumptions += ["layer R (exact arithmetic): the rounding error of evaluating f is outside", "convergence to the minimiser within 1e-3 (an iterative-method statement) is not claimed",
